@@ -121,6 +121,13 @@ Theorem C08_crop_window_persists_over_output_passes : gen_crop_window_set_once =
 Proof. exact (eq_refl true). Qed.
 Print Assumptions C08_crop_window_persists_over_output_passes.
 
+(* generated facts (fixes of bufimage-hazard8 and of the stale output_scanline test): in buffered-image mode a skip to the
+   bottom leaves the input controller alone; jpeg_crop_scanline tests output_scanline only in DSTATE_SCANNING *)
+Theorem C08_bufimage_skip_and_crop_guards :
+  gen_skip_clamp_guards_buffered = true /\ gen_crop_state_test_scanning_only = true.
+Proof. exact (conj (eq_refl true) (eq_refl true)). Qed.
+Print Assumptions C08_bufimage_skip_and_crop_guards.
+
 (* TurboJPEG destination: row_pointer[i] = &dstBuf[anchor(i) * pitch] with the generated anchor; bottom-up delivery is
    the reversal of top-down delivery and stays inside the h rows (pitch * h bytes) of the destination *)
 Theorem C08_tj_bottomup_is_reversal :
